@@ -28,7 +28,7 @@ PROPS = {
              ["Gx.Pins.orders_are_permutations", "Gx.Pins.argument_maps", "Gx.Pins.removal_flags"],
              ns.c04_run, ns.c04_case),
     "C05": P("GotranxProofs.Properties.C05 GotranxProofs.GenValid GotranxProofs.SchemeEndToEnd GotranxProofs.EndToEndAll GotranxProofs.LoadEndToEndAll",
-             ["Gx.load_euler_end_to_end", "Gx.EndToEnd.euler_end_to_end", "Gx.SchemeEndToEnd.genEuler_correct", "Gx.GenValid.genEuler_valid", "Gx.C05.euler_eq_states_plus_dt_rhs", "Gx.C05.eval_eulerStore", "Gx.C05.eval_euler_printed", "Gx.C05.euler_dt_zero",
+             ["Gx.load_euler_end_to_end", "Gx.SchemeEndToEnd.genEuler_dt_zero", "Gx.EndToEnd.euler_end_to_end", "Gx.SchemeEndToEnd.genEuler_correct", "Gx.GenValid.genEuler_valid", "Gx.C05.euler_eq_states_plus_dt_rhs", "Gx.C05.eval_eulerStore", "Gx.C05.eval_euler_printed", "Gx.C05.euler_dt_zero",
               "Gx.C05.inputs_untouched", "Gx.C05.euler_aliases", "Gx.checkScheme_sound", "Gx.checkRhs_sound_named"] + COMMON,
              ["Gx.Pins.scheme_aliases", "Gx.Pins.scheme_members_accepted"],
              ns.c05_run, ns.c05_case),
@@ -111,8 +111,8 @@ PROPS = {
               "Gx.C20.jacobian_entry_correct", "Gx.C20.jacobian_shape", "Gx.diff_correct"],
              ["Gx.Pins.max_tries_shape"],
              ss.c20_run, ss.c20_case),
-    "C12": P("GotranxProofs.Properties.C12 GotranxProofs.GenValid GotranxProofs.SchemeEndToEnd",
-             ["Gx.SchemeEndToEnd.genEuler_removal_invariant", "Gx.SchemeEndToEnd.genGRL_removal_invariant", "Gx.SchemeEndToEnd.genHybrid_removal_invariant", "Gx.GenValid.genRhs_removal_invariant", "Gx.GenValid.genRhs_valid", "Gx.GenValid.genRhs_exprOK", "Gx.C12.unused_equiv_rhs", "Gx.C12.removed_never_read", "Gx.C12.mentioned_complete", "Gx.checkRhs_sound_named", "Gx.checkRhs_progress"] + COMMON,
+    "C12": P("GotranxProofs.Properties.C12 GotranxProofs.GenValid GotranxProofs.SchemeEndToEnd GotranxProofs.EndToEndAll",
+             ["Gx.SchemeEndToEnd.genMonitor_removal_invariant", "Gx.SchemeEndToEnd.genEuler_removal_invariant", "Gx.SchemeEndToEnd.genGRL_removal_invariant", "Gx.SchemeEndToEnd.genHybrid_removal_invariant", "Gx.GenValid.genRhs_removal_invariant", "Gx.GenValid.genRhs_valid", "Gx.GenValid.genRhs_exprOK", "Gx.C12.unused_equiv_rhs", "Gx.C12.removed_never_read", "Gx.C12.mentioned_complete", "Gx.checkRhs_sound_named", "Gx.checkRhs_progress"] + COMMON,
              ["Gx.Pins.removal_flags"],
              ns.c12_run, ns.c12_case),
 }
